@@ -2882,11 +2882,72 @@ impl<'a, T> Descendants<'a, T> {
     }
 }
 impl<T> Descendants<'_, T> {
-    #[verifier::external_body]
-    pub fn next(&mut self) -> Option<NodeId> {
+    pub fn next(&mut self) -> (r: Option<NodeId>)
+        // @props C09 C02
+        requires
+            old(self).0.arena.wf(),
+            old(self).0.next is Some ==> tgt_ok(old(self).0.arena.nodes@, Some(edge_node(old(self).0.next->0))),
+        ensures
+            final(self).0.arena == old(self).0.arena && final(self).0.root == old(self).0.root,
+            final(self).0.next is Some ==> tgt_ok(final(self).0.arena.nodes@, Some(edge_node(final(self).0.next->0))),
+            // @ob C09.descendants_are_the_start_edges_of_traverse_in_order C09
+            forall|w: Ranks| #[trigger]
+                ranked(old(self).0.arena.nodes@, w) ==> {
+                    let fs = first_start(old(self).0.arena.nodes@, w, old(self).0.root, old(self).0.next);
+                    &&& r == (match fs {
+                        Some(NodeEdge::Start(n)) => Some(n),
+                        _ => None,
+                    })
+                    &&& final(self).0.next == (match fs {
+                        Some(st) => trav_step(old(self).0.arena.nodes@, old(self).0.root, st),
+                        None => None,
+                    })
+                },
+    {
+        let ghost w0 = choose|w: Ranks| ranked(self.0.arena.nodes@, w);
         {
             let mut __vx_found1 = None;
-            while let Some(edge) = self.0.next() {
+            while let Some(edge) = self.0.next()
+                invariant_except_break
+                    __vx_found1 is None,
+                invariant
+                    self.0.arena == old(self).0.arena,
+                    self.0.root == old(self).0.root,
+                    self.0.arena.wf(),
+                    ranked(self.0.arena.nodes@, w0),
+                    self.0.next is Some ==> tgt_ok(self.0.arena.nodes@, Some(edge_node(self.0.next->0))),
+                    __vx_found1 is None ==> forall|w: Ranks| #[trigger]
+                        ranked(self.0.arena.nodes@, w) ==> first_start(self.0.arena.nodes@, w, self.0.root, self.0.next) == first_start(
+                            self.0.arena.nodes@,
+                            w,
+                            self.0.root,
+                            old(self).0.next,
+                        ),
+                ensures
+                    forall|w: Ranks| #[trigger]
+                        ranked(self.0.arena.nodes@, w) ==> {
+                            let fs = first_start(self.0.arena.nodes@, w, self.0.root, old(self).0.next);
+                            &&& __vx_found1 == (match fs {
+                                Some(NodeEdge::Start(n)) => Some(n),
+                                _ => None,
+                            })
+                            &&& self.0.next == (match fs {
+                                Some(st) => trav_step(self.0.arena.nodes@, self.0.root, st),
+                                None => None,
+                            })
+                        },
+                // @ob C02.descendants_next_terminates C02
+                decreases desc_measure(w0, self.0.next),
+            {
+                proof {
+                    lemma_desc_step(self.0.arena.nodes@, w0, self.0.root, edge);
+                    assert forall|w: Ranks| #[trigger] ranked(self.0.arena.nodes@, w) implies (edge is End ==> desc_measure(
+                        w,
+                        trav_step(self.0.arena.nodes@, self.0.root, edge),
+                    ) < desc_measure(w, Some(edge))) by {
+                        lemma_desc_step(self.0.arena.nodes@, w, self.0.root, edge);
+                    }
+                }
                 let __vx_m2 = match edge {
                     NodeEdge::Start(node) => Some(node),
                     NodeEdge::End(_) => None,
